@@ -87,6 +87,8 @@ pub use error::{Result, SvmError};
 pub use hyperparams::{SvmParams, SvmValidParams};
 use linfa_kernel::KernelMethod;
 pub use solver_smo::{SeparatingHyperplane, SolverParams};
+#[cfg(linfa_verif)]
+pub use solver_smo::verif_hooks_c13;
 
 use std::ops::Mul;
 
